@@ -22,8 +22,8 @@ def snapshot(net):
                 snap[k] = ("dict", copy.deepcopy(v))
             except Exception:
                 snap[k] = ("repr", repr(v))
-        elif isinstance(v, (int, float, str, bool, type(None), np.integer, np.floating)):
-            snap[k] = ("val", v)
+        elif k in ("name", "f_hz", "sn_mva") and isinstance(v, (int, float, str, bool, type(None), np.integer, np.floating)):
+            snap[k] = ("val", v)   # 'converged', 'OPF_converged' ... are outputs, not inputs
     return snap
 
 
